@@ -12,6 +12,7 @@ import PopsModel.Driver.HostEng
 import PopsModel.Driver.MultiEng
 import PopsModel.Driver.StreamEng
 import PopsModel.Driver.ErrEng
+import PopsModel.Driver.MModelEng
 namespace Pops.Driver
 
 structure DState where
@@ -25,6 +26,7 @@ structure DState where
   multi : MultiEng.State := {}
   stream : StreamEng.State := {}
   err : ErrEng.State := {}
+  mmodel : MModelEng.State := {}
 
 def dateCmds : List String :=
   ["sched", "lookup", "yearly", "eoy", "monthly", "nsteps", "final", "spread", "fromstring",
@@ -66,6 +68,9 @@ def step (st : DState) (line : String) : DState × String :=
     else if cmd.startsWith "err." then
       let (s', out) := ErrEng.handle st.err cmd args obs
       ({ st with err := s' }, out)
+    else if cmd.startsWith "mm." then
+      let (s', out) := MModelEng.handle st.mmodel cmd args obs
+      ({ st with mmodel := s' }, out)
     else (st, "BADLINE")
 
 partial def loop (h : IO.FS.Stream) (out : IO.FS.Stream) (st : DState) (case_ : String) : IO Unit := do
